@@ -98,7 +98,8 @@ SameUnrootedTree(g, h) == TreeTx(g) = TreeTx(h) /\ CanonUnrooted(g) = CanonUnroo
 GapIx(m) == m.k
 NChar(m) == IF Len(m.rows) = 0 THEN 0 ELSE Len(m.rows[1])
 \* ambiguity codes are state sets; gaps are missing data when requested (gm), otherwise an extra state
-StateSet(cell, K, gm) == IF gm THEN (IF cell \subseteq {K} THEN 0..(K - 1) ELSE cell \ {K}) ELSE cell
+\* ({i \in .. : TRUE}: an enumerated set rather than an interval value, so that dumped states print as {0, 1, 2})
+StateSet(cell, K, gm) == IF gm THEN (IF cell \subseteq {K} THEN {i \in 0..(K - 1) : TRUE} ELSE cell \ {K}) ELSE cell
 Universe(m, gm) == IF gm THEN 0..(m.k - 1) ELSE 0..m.k
 RowSets(m, t, gm) == TLCEval([j \in 1..Len(m.rows[t]) |-> StateSet(m.rows[t][j], m.k, gm)])
 \* (TLCEval: TLC otherwise re-evaluates a function expression at every application)
@@ -172,5 +173,30 @@ Scored(c, nchar, w) ==
 ScoreOp(g, cache, m, w, gm, shipped) ==
     Scored(PassCounts(g, LeafSetsUsed(g, cache, m, gm, shipped), NChar(m)), NChar(m), w)
 CacheAfter(g, cache, m, gm, shipped) == PassCache(g, LeafSetsUsed(g, cache, m, gm, shipped))
+\* ------------------------------------------------------------------ the pass functions used directly
+\* the documented pattern "build the taxon_state_sets_map once, score many trees": sets = taxon code -> sequence
+\* of state sets (the map object, shared by all calls)
+MapOf(m, gm) == TLCEval([t \in 1..Len(m.rows) |-> RowSets(m, t, gm)])
+LeafSetsFromMap(g, sets) == TLCEval([x \in 1..g.n |-> IF IsLeaf(g, x) THEN sets[g.tx[x]] ELSE <<>>])
+\* Fitch's final (up) pass on the down-pass sets dn (node -> set, character j): the seed keeps its set
+RECURSIVE UpFinal(_, _, _)
+UpFinal(g, dn, x) ==
+    IF g.par[x] = 0 THEN dn[x]
+    ELSE LET pf == UpFinal(g, dn, g.par[x])  cur == dn[x]
+             l == dn[g.kids[x][1]]  r == dn[g.kids[x][2]] IN
+         IF pf \cap cur = pf THEN pf
+         ELSE IF l \cap r = {} THEN pf \cup cur
+         ELSE (pf \cap l) \cup (pf \cap r) \cup cur
+\* a regression of the kind "finalise the tips too, in place": every ambiguous tip set is narrowed to its states
+\* compatible with the parent's final set - written into the shared map
+NarrowedMap(g, sets, cache) ==
+    TLCEval([t \in 1..Len(sets) |->
+        IF \E x \in Leaves(g) : g.tx[x] = t
+          THEN LET x == CHOOSE y \in Leaves(g) : g.tx[y] = t IN
+               [j \in 1..Len(sets[t]) |->
+                  LET dn == [y \in 1..g.n |-> cache[y][j]]
+                      c == sets[t][j] \cap UpFinal(g, dn, g.par[x]) IN
+                  IF Cardinality(sets[t][j]) > 1 /\ c # {} THEN c ELSE sets[t][j]]
+          ELSE sets[t]])
 StaleLeaves(g, cache, m, gm) == {x \in Leaves(g) : cache[x] # <<>> /\ cache[x] # RowSets(m, g.tx[x], gm)}
 =============================================================================
